@@ -348,6 +348,74 @@ def h_parse_text(s: str, maxlen: int, first: str):
     require(got == want, 'parse(text) differs from reference', s, got, want)
 
 
+ML_FRAGS = ['(a / b', ':c d', ')', '(e :f', '# note', ') x', '', '"s']
+ML_SEPS = ['\n', '\n\n', '\r\n', '\r', '\n\r\n\n', ' ']
+
+
+def h_parse_multiline(k: int, entry: int, **sym):
+    """Multi-line string input (blank lines, CRLF, CR): acceptance, tree and
+    the reported line/column agree with reference line splitting + reference
+    lexer + reference recogniser."""
+    import penman
+    from penman.exceptions import DecodeError
+    from vflib import progs
+    from vflib.engine import bound_int
+    from vflib.oracles import ref_lex_line, ref_split_lines
+    pieces = []
+    for i in range(k):
+        fi = sym[f'f{i}']
+        bound_int(fi, 0, len(ML_FRAGS))
+        pieces.append(progs.pick(fi, ML_FRAGS))
+        if i < k - 1:
+            si = sym[f's{i}']
+            bound_int(si, 0, len(ML_SEPS))
+            pieces.append(progs.pick(si, ML_SEPS))
+    text = ''.join(pieces)
+    kinds, texts, linenos, offs = [], [], [], []
+    for ln, line in enumerate(ref_split_lines(text), 1):
+        for t, x, o in ref_lex_line(line):
+            kinds.append(tk.KIDX[t])
+            texts.append(x)
+            linenos.append(ln)
+            offs.append(o)
+    ref = tk.RefParser(kinds, texts, linenos, offs)
+    want_nodes, want_err = [], None
+    try:
+        if entry == 0:
+            _, node = ref.graph()
+            want_nodes.append(node)
+        else:
+            while ref.i < len(kinds) and kinds[ref.i] in (tk.COMMENT,
+                                                          tk.LPAREN):
+                _, node = ref.graph()
+                want_nodes.append(node)
+    except tk.RefReject as rej:
+        want_err = rej.pos
+    got_nodes, got_err = [], None
+    try:
+        if entry == 0:
+            got_nodes.append(penman.parse(text).node)
+        else:
+            for t in penman.iterparse(text):
+                got_nodes.append(t.node)
+    except DecodeError as exc:
+        got_err = (exc.lineno, exc.offset)
+    except Exception as exc:
+        raise Violation(f'{type(exc).__name__} escaped: {exc}', text)
+    if want_err is not None and want_err[0] >= 3:
+        mark('error-after-blank-lines')
+    require(got_nodes == want_nodes, 'trees differ', text, got_nodes,
+            want_nodes)
+    require(got_err == want_err, 'error position differs', text, got_err,
+            want_err)
+
+
+h_parse_multiline.params_for = lambda fixed: {
+    k: v for k, v in {**{f'f{i}': int for i in range(fixed['k'])},
+                      **{f's{i}': int for i in range(fixed['k'] - 1)}}.items()
+    if k not in fixed}
+
+
 def obligations(tier: str) -> List[dict]:
     obs = []
     LP, RP, SY, SL, RO, CM = (tk.LPAREN, tk.RPAREN, tk.SYMBOL, tk.SLASH,
@@ -388,6 +456,15 @@ def obligations(tier: str) -> List[dict]:
         sliced(T, 'parse_triples', 4, [(SY, LP)], 150, ['accepted'], tlen=2)
         sliced(T, 'parse_triples', 5, [(SY, LP, SY)], 300, ['accepted'],
                tlen=2)
+        for entry in (0, 1):
+            for f0 in (0, 3, 4):
+                obs.append({'name': f'E2 multi-line text k=3 entry={entry} '
+                                    f'f0={f0}', 'kind': 'e2',
+                            'fn': 'h_parse_multiline',
+                            'fixed': {'k': 3, 'entry': entry, 'f0': f0},
+                            'timeout': 300, 'bound': '3 fragments',
+                            'need_marks': ['error-after-blank-lines']
+                            if f0 == 0 else []})
         obs.append({'name': 'E2 parse(text) len<=2', 'kind': 'e2',
                     'fn': 'h_parse_text',
                     'fixed': {'maxlen': 2, 'first': 'any'}, 'timeout': 200,
@@ -424,6 +501,15 @@ def obligations(tier: str) -> List[dict]:
         sliced(T, 'parse_triples', 4, [(SY, LP)], 1500, tlen=3)
         sliced(T, 'parse_triples', 9, [(SY, LP, SY, RP, SY, LP)], 3000,
                ['two-triples'], tlen=1)
+        for entry in (0, 1):
+            for f0 in range(len(ML_FRAGS)):
+                for s0 in range(len(ML_SEPS)):
+                    obs.append({'name': f'E2 multi-line text k=4 '
+                                        f'entry={entry} f0={f0} s0={s0}',
+                                'kind': 'e2', 'fn': 'h_parse_multiline',
+                                'fixed': {'k': 4, 'entry': entry, 'f0': f0,
+                                          's0': s0},
+                                'timeout': 3000, 'bound': '4 fragments'})
         obs.append({'name': 'E2 parse(text) len<=2', 'kind': 'e2',
                     'fn': 'h_parse_text',
                     'fixed': {'maxlen': 2, 'first': 'any'}, 'timeout': 600,
